@@ -38,7 +38,10 @@ FRAMES = [
     ('f3', 1, [('a', 'mV', 'Double'), ('b', 'ms', 'Int32'), ('c', '', 'String'), ('d', 'spikes', 'UInt64')]),
 ]
 
-MUTATORS = ('append_', 'create_', 'delete_dims', 's_', 't_', 'r_ticks ', 'r_label', 'r_unit', 'a_', 'reopen')
+# frames of the OTHER block: a name of their own, or the name of a local frame (names are unique per block only)
+FOREIGN_UNIQUE = [('g', 1, [('x', 's', 'Double')]), ('h', 3, [('u', '', 'Int64'), ('v', 'mV', 'Double')])]
+
+MUTATORS = ('append_', 'create_', 'delete_dims', 's_', 't_', 'r_ticks ', 'r_label', 'r_unit', 'a_', 'reopen', 'recreate', 'drop_b2')
 
 
 def is_mutator(line):
@@ -140,24 +143,51 @@ class Gen:
         if is_mutator(line):
             self.lines.append('observe')
 
-    def new(self, dtype, rank, length, frames):
+    def new(self, dtype, rank, length, frames, foreign=()):
         self.dtype, self.rank, self.frames = dtype, rank, frames
+        self.handles = [list(f[2]) for f in foreign]     # columns of every foreign handle (grows with `recreate`)
+        self.b2 = True
         t = ['new', dtype, str(rank), str(length), str(len(frames))]
-        for (name, rows, cols) in frames:
-            t += [hx(name), str(rows), str(len(cols))]
-            for (c, u, ty) in cols:
-                t += [hx(c), hx(u), ty]
+        for group in (frames, None, foreign):
+            if group is None:
+                t.append(str(len(foreign)))
+                continue
+            for (name, rows, cols) in group:
+                t += [hx(name), str(rows), str(len(cols))]
+                for (c, u, ty) in cols:
+                    t += [hx(c), hx(u), ty]
         self.lines.append(' '.join(t))
         self.lines.append('observe')
 
-    def fref(self):
+    def fref(self, p_foreign=0.22):
         r = self.r
         x = r.random()
-        if x < 0.08:
+        if x < 0.06:
             return 'none'
-        if x < 0.2:
-            return 'foreign'
+        if x < 0.06 + p_foreign and self.handles:
+            return 'foreign:%d' % r.choice(list(range(len(self.handles))) + [len(self.handles) - 1])
         return str(r.randrange(len(self.frames)))
+
+    def fcols(self, f):
+        if f.isdigit():
+            return self.frames[int(f)][2]
+        if f.startswith('foreign:'):
+            return self.handles[int(f[8:])]
+        return [('x', '', 'Double')]
+
+    def recreate(self):
+        """delete a local frame and create it anew under the same name: the old handle becomes a foreign (stale) one"""
+        if self.ro:
+            return
+        k = self.r.randrange(len(self.frames))
+        self.emit('recreate %d' % k)
+        self.handles.append(list(self.frames[k][2]))
+
+    def drop_b2(self):
+        if self.ro:
+            return
+        self.emit('drop_b2')
+        self.b2 = False
 
     def append(self, what=None):
         r = self.r
@@ -181,18 +211,19 @@ class Gen:
             self.emit('append_alias')
             if not self.kinds and self.rank == 1 and self.dtype not in NONNUM and not self.ro:
                 self.kinds.append('A')      # (unless the array unit is not SI - the picture is only rough)
-        elif what == 'df':
-            f = self.fref()
+        elif what in ('df', 'df-foreign'):
+            f = self.fref(0.9 if what == 'df-foreign' else 0.22)
             form = r.choice(['idx', 'idx', 'name', 'plain'])
-            ncols = len(self.frames[int(f)][2]) if f.isdigit() else 1
+            cols = self.fcols(f)
+            ncols = len(cols)
             if form == 'idx':
                 self.emit('append_df_idx %s %d' % (f, r.choice([0, 0, 1, ncols - 1, ncols, ncols + 1, 7])))
             elif form == 'name':
-                names = [c[0] for c in self.frames[int(f)][2]] if f.isdigit() else ['x']
-                self.emit('append_df_name %s %s' % (f, hx(r.choice(names + ['nope', '']))))
+                names = [c[0] for c in cols]
+                self.emit('append_df_name %s %s' % (f, hx(r.choice(names + names + ['nope', '']))))
             else:
                 self.emit('append_df %s' % f)
-            if f != 'none' and not self.ro:
+            if f.isdigit() and not self.ro:
                 self.kinds.append('F')      # rough
         else:
             k = r.choice(['set', 'range', 'sampled', 'alias'])
@@ -302,6 +333,19 @@ def frames_pick(rnd):
     return rnd.sample(FRAMES, k)
 
 
+def foreign_pick(rnd, local):
+    """frames of the second block: one with a name of its own and (mostly) one that carries the NAME of a local frame,
+    with the same or with other columns"""
+    out = [rnd.choice(FOREIGN_UNIQUE)]
+    if rnd.random() < 0.75:
+        twin = rnd.choice(local)
+        cols = twin[2] if rnd.random() < 0.5 else rnd.choice(FRAMES + FOREIGN_UNIQUE)[2]
+        out.append((twin[0], rnd.choice([0, 1, twin[1]]), cols))
+        if rnd.random() < 0.5:
+            out.reverse()
+    return out
+
+
 def history(rnd, flavour):
     g = Gen(rnd)
     if flavour == 'alias':
@@ -312,7 +356,8 @@ def history(rnd, flavour):
     else:
         dtype = rnd.choice(NUMERIC + NONNUM)
         rank = rnd.choice([1, 1, 2, 3])
-    g.new(dtype, rank, rnd.choice([0, 1, 2, 3, 4]), frames_pick(rnd))
+    local = frames_pick(rnd)
+    g.new(dtype, rank, rnd.choice([0, 1, 2, 3, 4]), local, foreign_pick(rnd, local))
     n = rnd.randint(6, 16)
     if flavour == 'appends':
         for _ in range(n):
@@ -386,11 +431,37 @@ def history(rnd, flavour):
         if not g.ro:
             for _ in range(rnd.randint(1, 3)):
                 g.setter()
+    elif flavour == 'foreign':
+        # handles that are not frames of the array's block: other block (own name / a local frame's name), stale
+        # handles of deleted-and-recreated frames, frames of a deleted block; then further appends and a reopen
+        for _ in range(rnd.randint(0, 2)):
+            g.append(rnd.choice(['df', 'set', 'sampled']))
+        for _ in range(n):
+            x = rnd.random()
+            if x < 0.5:
+                g.append('df-foreign')
+            elif x < 0.62:
+                g.recreate()
+            elif x < 0.68 and g.b2:
+                g.drop_b2()
+            elif x < 0.85:
+                g.append(rnd.choice(['df', 'set', 'sampled', 'range']))
+            elif x < 0.93:
+                g.reopen(rnd.choice(['rw', 'rw', 'ro']))
+                if g.ro:
+                    g.append('df-foreign')
+                    g.reopen('rw')
+            else:
+                g.emit('f_q %d %s %s' % (g.idx('F'), rnd.choice(['label', 'unit', 'type']), rnd.choice(['-', '0', '1'])))
+        g.append('df')
+        g.reopen('rw')
     elif flavour == 'frames':
         for _ in range(n):
             x = rnd.random()
-            if x < 0.55:
+            if x < 0.5:
                 g.append('df')
+            elif x < 0.56:
+                g.recreate()
             elif x < 0.9:
                 g.emit('f_q %d %s %s' % (g.idx('F'), rnd.choice(['label', 'unit', 'type']), rnd.choice(['-', '-', '0', '1', '2', '3', '4'])))
             else:
@@ -404,8 +475,10 @@ def history(rnd, flavour):
                 g.setter()
             elif x < 0.8:
                 g.query()
-            elif x < 0.88:
+            elif x < 0.86:
                 g.array_write()
+            elif x < 0.89:
+                g.recreate()
             elif x < 0.94:
                 g.delete()
             else:
@@ -417,7 +490,8 @@ def history(rnd, flavour):
     return g.lines
 
 
-HDR = 'new Double 1 3 1 ' + ' '.join([hx('f0'), '2', '2', hx('name'), hx(''), 'String', hx('freq'), hx('Hz'), 'Double'])
+F0 = [hx('f0'), '2', '2', hx('name'), hx(''), 'String', hx('freq'), hx('Hz'), 'Double']
+HDR = 'new Double 1 3 1 ' + ' '.join(F0 + ['2', hx('g'), '1', '1', hx('x'), hx('s'), 'Double'] + F0)
 HDR_I = HDR.replace('Double 1 3', 'Int32 1 2', 1)
 
 
@@ -429,7 +503,7 @@ def directed():
     c.append(Case([HDR, 'append_sampled %s %s %s %s' % (dd(-1.0), E, E, dd(0.0)), 'observe'], 'directed'))
     c.append(Case([HDR, 'append_sampled %s %s %s %s' % (dd(1.0), E, E, dd(-2.5)), 'observe'], 'directed'))
     c.append(Case([HDR, 'append_range %s %s %s' % (hx('time'), hx('spikes'), dd(1.0)), 'observe'], 'directed'))
-    c.append(Case([HDR, 'append_df foreign', 'observe'], 'directed'))
+    c.append(Case([HDR, 'append_df foreign:0', 'observe'], 'directed'))
     c.append(Case([HDR, 'append_sampled %s %s %s %s' % (dd(1.0), hx('time'), hx('mV/'), dd(2.0)), 'observe'], 'directed'))
     c.append(Case([HDR, 'append_sampled %s %s %s %s' % (dd(1.0), E, E, dd(0.0)), 's_interval 1 %s' % dd(NAN), 'observe'], 'directed'))
     c.append(Case([HDR, 'append_range %s %s %s' % (E, E, dd(1.0)), 'r_ticks 1 %s %s %s' % (dd(2.0), dd(NAN), dd(1.0)), 'observe'], 'directed'))
@@ -449,10 +523,28 @@ def directed():
                    'r_label 1 %s' % hx('tl'), 'observe', 'r_unit 1 %s' % hx('s'), 'observe', 'a_unit %s' % hx('spikes'), 'observe',
                    'r_unit 1 none', 'observe', 'r_tickat 1 1', 'r_ticks_sc 1 0 2', 'r_axis 1 1 1', 'reopen ro', 'observe',
                    'delete_dims', 'reopen rw', 'delete_dims', 'observe', 'a_unit %s' % hx('spikes'), 'append_alias', 'observe'], 'directed'))
+    # frame handles that are not frames of the array's block, all three overloads, then further appends and a reopen:
+    # (a) another block's frame with a name of its own, (b) another block's frame with the NAME of a local frame,
+    # (c) the stale handle of a deleted-and-recreated local frame, (d) a frame whose block was deleted
+    tail = ['append_df 0', 'observe', 'append_sampled %s %s %s %s' % (dd(1.0), E, E, dd(0.0)), 'observe', 'dims', 'count',
+            'reopen rw', 'observe', 'append_set 0', 'observe', 'dims']
+    for k in (0, 1):
+        f = 'foreign:%d' % k
+        col, name = ('0', 'x') if k == 0 else ('1', 'freq')
+        c.append(Case([HDR, 'append_df %s' % f, 'observe'] + tail, 'directed-foreign'))
+        c.append(Case([HDR, 'append_df_idx %s %s' % (f, col), 'observe'] + tail, 'directed-foreign'))
+        c.append(Case([HDR, 'append_df_name %s %s' % (f, hx(name)), 'observe'] + tail, 'directed-foreign'))
+        c.append(Case([HDR, 'append_set 0', 'append_df_idx 0 0', 'observe', 'append_df %s' % f, 'observe', 'append_df_idx %s 0' % f, 'observe',
+                       'append_df_name %s %s' % (f, hx(name)), 'observe', 'drop_b2', 'append_df %s' % f, 'observe',
+                       'append_df_idx %s 0' % f, 'observe'] + tail + ['append_df %s' % f, 'observe'], 'directed-foreign'))
+    c.append(Case([HDR, 'append_df_idx 0 1', 'observe', 'recreate 0', 'observe', 'append_df foreign:2', 'observe',
+                   'append_df_idx foreign:2 1', 'observe', 'append_df_name foreign:2 %s' % hx('freq'), 'observe', 'f_q 1 label -', 'f_q 1 unit -']
+                  + tail + ['append_df foreign:2', 'observe'], 'directed-foreign'))
     return c
 
 
-FLAVOURS = ['appends', 'appends', 'setters', 'setters', 'alias', 'alias', 'alias-rejected', 'readonly', 'frames', 'mixed', 'mixed']
+FLAVOURS = ['appends', 'appends', 'setters', 'setters', 'alias', 'alias', 'alias-rejected', 'readonly', 'frames', 'foreign', 'foreign',
+            'mixed', 'mixed']
 
 
 class C13(Prop):
@@ -499,7 +591,7 @@ class C13(Prop):
 
     def generate(self, seed, tier, scale=1):
         rnd = random.Random(seed * 7919 + 13)
-        n = (420 if tier == 'quick' else 6000) * scale
+        n = (455 if tier == 'quick' else 6500) * scale
         cases = directed()
         for k in range(n):
             fl = FLAVOURS[k % len(FLAVOURS)]
@@ -529,7 +621,7 @@ class C13(Prop):
             pop, pa = pt[0], impl[k - 1]
             if pop in ('append_range', 'append_sampled') and 'InvalidUnit' in pa:
                 return {'kind': 'invalid-unit-leaves-descriptor'}
-            if pop.startswith('append_df') and 'foreign' in pt and pa.startswith('ERR'):
+            if pop.startswith('append_df') and any(x.startswith('foreign') for x in pt) and pa.startswith('ERR'):
                 return {'kind': 'foreign-frame-leaves-descriptor', 'op': 'append_df'}
             if pop == 'append_sampled' and pa.startswith('OK'):
                 off = undd(pt[4])
